@@ -51,6 +51,9 @@ type Event struct {
 	// Pos (bad-* events): the violating result is inserted at this position among
 	// the valid results of Results that share its response.
 	Pos int `json:"pos,omitempty"`
+	// Mixed (q): the request carries, besides its operations, the client's election id once
+	// more ("e") - the election is then pending again until the server answers it
+	Mixed string `json:"mixed,omitempty"`
 }
 
 type Case struct {
@@ -102,6 +105,7 @@ type world struct {
 	seq                         map[uint64][]spb.AFTResult_Status // what the server sent per id
 	done                        map[uint64]bool
 	paramsPending, elecPending  bool
+	elecNeed                    int // messages the server must have received before it can answer the pending election
 	resps                       int
 	bad                         bool
 	badKind                     string
@@ -426,8 +430,22 @@ func runCase(c Case) *ev.Verdict {
 			if e.Req != queued+1 || e.Req >= len(reqOps) {
 				continue
 			}
+			mr := &spb.ModifyRequest{Operation: reqOps[e.Req]}
+			if e.Mixed == "e" {
+				// (the client keeps one pending election: the answer to the earlier one must have
+				// been processed, or it would be taken for the answer to this one)
+				if w.elecPending || !w.syncRecv(when) {
+					continue
+				}
+				mr.ElectionId = &spb.Uint128{Low: 1}
+				v.Class("request-with-operations-and-election-id")
+			}
 			queued = e.Req
-			cl.Q(&spb.ModifyRequest{Operation: reqOps[e.Req]})
+			cl.Q(mr)
+			if e.Mixed == "e" {
+				w.elecPending = true
+				w.elecNeed = 2 + queued + 1
+			}
 			// handed over once Q has returned
 			handedMu.Lock()
 			for _, o := range reqOps[e.Req] {
@@ -449,7 +467,7 @@ func runCase(c Case) *ev.Verdict {
 			if !w.elecPending || w.bad {
 				continue
 			}
-			if !w.st.WaitSent(2) {
+			if !w.st.WaitSent(max(2, w.elecNeed)) {
 				w.fail("handshake-missing", "%s: the election id never reached the server", when)
 				return v
 			}
@@ -662,7 +680,7 @@ func runCase(c Case) *ev.Verdict {
 			w.paramsPending = false
 		}
 		if w.elecPending {
-			w.st.WaitSent(2)
+			w.st.WaitSent(max(2, w.elecNeed))
 			w.st.Respond(&spb.ModifyResponse{ElectionId: &spb.Uint128{Low: 1}})
 			w.resps++
 			w.elecPending = false
@@ -803,7 +821,12 @@ func drawCase(rt *rapid.T) Case {
 		}
 		switch k := rapid.IntRange(0, 9).Draw(rt, "event"); {
 		case k < 3 && queued < nreq:
-			c.Events = append(c.Events, Event{K: "q", Req: queued})
+			qe := Event{K: "q", Req: queued}
+			if sentElec && rapid.IntRange(0, 4).Draw(rt, "mixed?") == 0 {
+				qe.Mixed = "e"
+				sentElec = false
+			}
+			c.Events = append(c.Events, qe)
 			refill(firstID[queued], lastID[queued])
 			queued++
 		case k == 3 && !sentParams:
